@@ -60,6 +60,13 @@ def explore(ctx):
         [{"k": "blind", "id": 0}, {"k": "issue", "id": 1}, {"k": "revoke", "ids": [0]}, {"k": "blind", "id": 0}, {"k": "refresh", "id": 0}],
         [{"k": "blind", "id": 0}, {"k": "blind", "id": 1}, {"k": "revoke", "ids": [1]}, {"k": "issue", "id": 1}, {"k": "refresh", "id": 0}],
     ]
+    # a revoked identifier asked for again (refused), and only THEN a refresh / another request for it: a refusal must
+    # leave no trace the later calls could build on
+    fixed += [
+        [{"k": "issue", "id": 0}, {"k": "issue", "id": 1}, {"k": "revoke", "ids": [1]}, {"k": "issue", "id": 1}, {"k": "refresh", "id": 1}, {"k": "issue", "id": 1}, {"k": "refresh", "id": 0}],
+        [{"k": "issue", "id": 0}, {"k": "issue", "id": 1}, {"k": "revoke", "ids": [0]}, {"k": "blind", "id": 0}, {"k": "refresh", "id": 0}, {"k": "blind", "id": 0}],
+        [{"k": "blind", "id": 0}, {"k": "issue", "id": 1}, {"k": "issue", "id": 2}, {"k": "revoke", "ids": [0, 2]}, {"k": "issue", "id": 2}, {"k": "blind", "id": 2}, {"k": "refresh", "id": 2}, {"k": "refresh", "id": 1}],
+    ]
     # growing, shrinking and mixed batch sizes between a holder's first handle and now (multi-batch catch-up)
     fixed += [
         [{"k": "issue", "id": i} for i in range(4)] + [{"k": "revoke", "ids": [1]}, {"k": "revoke", "ids": [2, 3]}],
